@@ -4,4 +4,6 @@ from .e2 import ch
 def jobs(prop, tier):
     t = 200 if tier == "quick" else 600
     return [ch(prop, "vf/pyshim/h_c04b.py", "h_sorted_columns", t, ["api.sorted_partitioned_columns"]),
+            ch(prop, "vf/pyshim/h_c04b.py", "h_sorted_columns_filtered", t,
+               ["api.sorted_partitioned_columns (filters)"]),
             ch(prop, "vf/pyshim/h_c04b.py", "h_stats_selection", t, ["writer.make_row_group (statistics selection)"])]
